@@ -1348,7 +1348,7 @@ yin_print_parsed_body(struct lys_ypr_ctx *pctx, const struct lysp_module *modp)
         yprp_extension(pctx, &modp->extensions[u]);
     }
     if (modp->exts) {
-        yprp_extension_instances(pctx, LY_STMT_MODULE, 0, modp->exts, NULL);
+        yprp_extension_instances(pctx, modp->is_submod ? LY_STMT_SUBMODULE : LY_STMT_MODULE, 0, modp->exts, NULL);
     }
 
     LY_ARRAY_FOR(modp->features, u) {
